@@ -412,6 +412,11 @@ func c07GenCase(ctx *core.Ctx, index int) *c07Case {
 	if r.Intn(4) == 0 {
 		o.FlushEvery = 1 + r.Intn(5)
 	}
+	if o.FlushEvery > 0 && cs.N/(o.Batch*o.FlushEvery) > 256 {
+		// at most ~256 row groups per file (2500 rows flushed every 3 rows = 834 row groups x 13 columns took
+		// more than the per-case time limit on a loaded machine)
+		o.Batch = cs.N/(256*o.FlushEvery) + 1
+	}
 	if strings.HasPrefix(cs.Path, "file-") || cs.Path == "copyrows" {
 		o.SrcCodec, o.SrcPageV, o.SrcBloom, o.SrcMax = o.Codec, o.PageV, "same", []int64{0, 0, 50, 100}[r.Intn(4)]
 		if cs.Path != "file-copy" {
@@ -1991,8 +1996,8 @@ func RunC07Files(ctx *core.Ctx) {
 				}()
 				select {
 				case <-done:
-				case <-time.After(60 * time.Second):
-					ctx.Fail("L1", "hang-"+cs.Path, "writing/checking did not finish within 60 s", cs.describe(ctx.Seed))
+				case <-time.After(180 * time.Second):
+					ctx.Fail("L1", "hang-"+cs.Path, "writing/checking did not finish within 180 s", cs.describe(ctx.Seed))
 					return // the batch may be in use by the stuck goroutine
 				}
 			}
